@@ -233,7 +233,7 @@ def native_geometry(rng, n):
     return bad
 
 
-@bounded(PROPERTY, "native_geometry_and_tables", bound="EXHAUSTIVE: adc_shifts for versions {1,2,2.4,NPultra} x nc in 1..384, dense_layout/trace_header for all 5 canonical configurations; "
+@bounded(PROPERTY, "native_geometry_and_tables", bound="EXHAUSTIVE: adc_shifts for versions {1,2,2.4,NPultra} x nc in 1..384, dense_layout for versions {1,2,2.1,2.4,NPultra} x {1,4} shanks against a per-channel description, trace_header for 5 configurations; "
          "BOUNDED: 6 (thorough 60) random site selections per probe family in both encodings, sorted/unsorted, split shanks, derived twice; shipped new/old encoding pair; "
          "channel subset 10:105 (known finding)",
          clause="ADC groups / delays, canonical layouts, encodings on real map strings")
@@ -257,6 +257,23 @@ def b_native(B):
         ws, wa = adc_spec(1 if v in (1, "NPultra") else 2, 384)
         ok = ok and np.array_equal(h["sample_shift"], ws) and np.array_equal(h["adc"], wa)
         B.case(("trace_header", str(v), nsh), bool(ok), detail="canonical layout: sites not distinct / x,y not on grid / adc table")
+    # the canonical layouts against an independent per-channel description, for every version x shank-count combination
+    def layout_spec(v, nsh):
+        ch = np.arange(384)
+        if v == 1:
+            return np.zeros(384), ch // 2, np.array([2, 0, 3, 1])[ch % 4]
+        if v == "NPultra":
+            return np.zeros(384), ch // 8, ch % 8
+        if nsh == 4:        # blocks of 48 channels alternate between two shanks and between the lower / upper 24 rows
+            blk = ch // 48
+            return np.array([0, 1, 0, 1, 2, 3, 2, 3])[blk], (ch % 48) // 2 + 24 * np.array([0, 0, 1, 1, 0, 0, 1, 1])[blk], ch % 2
+        return np.zeros(384), ch // 2, ch % 2
+    for v in (1, 2, 2.1, 2.4, "NPultra"):
+        for nsh in (1, 4):
+            h = neuropixel.dense_layout(version=v, nshank=nsh)
+            ws, wr, wc = layout_spec(v, nsh)
+            ok = np.array_equal(h["shank"], ws) and np.array_equal(h["row"], wr) and np.array_equal(h["col"], wc) and np.array_equal(h["ind"], np.arange(384))
+            B.case(("dense_layout", str(v), nsh), bool(ok), detail="shank / row / col of the canonical layout differ from the per-channel description (single shank: row ch//2, col ch%2; four shanks: blocks of 48)")
     rng = np.random.default_rng(B.seed)
     try:
         bad = native_geometry(rng, 2 if B.tier == "quick" else 20)
